@@ -235,9 +235,26 @@ def _mode_node(rng, chain, info):
                                                           "lamb_mode": rng.choice(["batch", "sample"]),
                                                           "shuffle_mode": rng.choice(["roll", "random"])}})
             node["cform"] = "compose"
+        _maybe_composite(rng, root[0], node)
     else:
         node["return_ctx"] = rng.random() < 0.3
     return node
+
+
+def _maybe_composite(rng, root, node):
+    """register the root's collators as ONE composite collator (KDComposeCollator over the members / KDSingleCollatorWrapper
+    around a single member) that is used as the collate function directly"""
+    cols = root["collators"]
+    if cols and cols[0]["c"] in ("compose", "wrapper"):     # shared root: already converted by another part
+        node["cform"] = "direct"
+        return
+    if not cols or rng.random() >= 0.45:
+        return
+    if len(cols) == 1 and rng.random() < 0.6:
+        root["collators"] = [{"c": "wrapper", "member": cols[0], "mode": node["mode"]}]
+    else:
+        root["collators"] = [{"c": "compose", "members": cols, "mode": node["mode"]}]
+    node["cform"] = "direct"
 
 
 def _nodes(node):
@@ -270,7 +287,21 @@ def _gen_mode(rng, allow_concat=True, base=None):
     return chain, info["n"], info
 
 
+def _fix_cforms(top):
+    """parts sharing a root must agree on how its registered collators are used (a later part may have made them composite)"""
+    for m in _nodes(top):
+        if m["k"] == "mode":
+            for r in _nodes(m):
+                if r["k"] == "root" and r.get("collators") and r["collators"][0]["c"] in ("compose", "wrapper"):
+                    m["cform"] = "direct"
+    return top
+
+
 def gen_sim_stack(rng):
+    return _fix_cforms(_gen_sim_stack(rng))
+
+
+def _gen_sim_stack(rng):
     if rng.random() < 0.2:
         # InterleavedSampler: main dataset + side datasets, frequently over the same root (train / eval views of one dataset)
         parts, share = [], None
@@ -402,10 +433,15 @@ def gen_probe_chain(rng, prefix, allow_sched=True, allow_collators=True, root=No
         root["collators"] = [{"c": "draw", "tag": f"{prefix}collator{i}"} for i in range(rng.choice([1, 2]))]
     node = {"k": "mode", "mode": mode, "return_ctx": False, "child": cur,
             "cform": rng.choice(["compose", "single", "wrapper"]) if len(root["collators"]) == 1 else "compose"}
+    _maybe_composite(rng, root, node)
     return node, n
 
 
 def gen_probe_stack(rng):
+    return _fix_cforms(_gen_probe_stack(rng))
+
+
+def _gen_probe_stack(rng):
     """chain / concat of chains / interleaved chains; the parts of a concat or an interleaved stack frequently sit on ONE root"""
     r = rng.random()
     if r < 0.25:
